@@ -20,14 +20,16 @@ CFG = dict(
                  "3": "idle: every issued call has ended (returned / open failed / stream cancelled, expired, terminal RecvMsg error, or the "
                       "connection is dead) yet the registry is not empty or a stream-loop goroutine is alive",
                  "4": "long history: registry size or stream-loop goroutines exceed the RPCs (streams) in flight as the callers see them",
-                 "5": "long history: no RPC in flight, yet the registry is not empty or a stream-loop goroutine is alive"},
+                 "5": "long history: no RPC in flight, yet the registry is not empty or a stream-loop goroutine is alive",
+                 "6": "long history: the client has no RPC in flight, yet the server connection still holds stream registrations for it "
+                      "(the client ended an RPC without telling the server: no trailer / reset written), or holds one for an RPC nobody issued"},
     rule="(a) lock-step in synctest bubbles on the real client against a scripted peer: 160 (thorough 3000) seeded histories of 2..5 RPC "
          "lifecycles, unary and stream, each with one of the outcomes ok / error status / cancel / deadline / server reset / failed open "
          "(transport write fails) / late (replies after completion, unread messages then cancel), 1..3 in flight, some closed by a read "
          "failure, with and without stats handler; registry size (verif accessor), pending calls and goroutine census compared with the "
          "model after EVERY action and judged by the bound/idle predicates; (b) one connection real client - real server, 10^3 (thorough "
-         "10^5) RPCs of the four kinds (unary, bidi, client-stream, server-stream) x the six outcomes, <= 32 in flight, gated handlers, "
-         "virtual-time deadlines; registry size, stream-loop census and RPCs in flight sampled at every quiescent point",
+         "10^5) RPCs of the four kinds (unary, bidi, client-stream, server-stream) x the outcomes ok / error status / cancel / deadline / server reset / failed open / SendMsg whose transport write fails on a healthy connection / handler aborting while the client still sends (late zero-length message, no CloseSend), <= 32 in flight, gated handlers, "
+         "virtual-time deadlines; client registry size, stream-loop census, RPCs in flight AND the server connection's stream registry sampled at every quiescent point",
     assumptions=["payloads, metadata and methods are opaque tokens in the model",
                  "transport writes succeed or fail at once (a Write that blocks for ever without honouring its context is outside the hypothesis)",
                  "quiescence = testing/synctest's durable blocking; goroutine roles are read from runtime.Stack frames",
